@@ -1,0 +1,116 @@
+//go:build verif
+
+// Contracts for the deductive verifier in /verif (comment-only; compiled only with -tags verif).
+
+package witness
+
+// database/sql declares ErrNoRows as a non-nil sentinel (errors.New) and never reassigns it.
+//@ global-invariant sql.ErrNoRows != nil
+
+//@ func (*Witness).parse
+//@ props C19
+//@ arith int
+//@ modifies nothing
+//@ site json.Unmarshal#1 as ju
+//@ site FromBase64String#1 as fb
+//@ site bytes.Equal#1 as e0
+//@ site bytes.Equal#2 as e1
+//@ site VerifySTHSignature#1 as vs
+//@ requires w != nil
+//@ requires forall k string :: has(w.Logs, k) ==> validKey(w.Logs[k].PubKey)
+//@ fresh result0
+//@ ensures [sth-xor-error] (result0 != nil) != (result1 != nil)
+//@ ensures [unknown-log-is-refused] !has(w.Logs, logID) ==> result1 != nil && !vs.called
+//@ ensures [undecodable-sth-or-log-id-is-refused] (ju.called && ju.res != nil) || (fb.called && fb.res != nil) ==> result1 != nil && !vs.called
+//@ ensures [mismatching-log-id-is-refused-before-any-check] e0.called && !e0.res && e1.called && !e1.res ==> result1 != nil && grpcCode(result1) == 9 && !vs.called
+//@ ensures [accepted-only-with-a-valid-signature-of-the-configured-log] result1 == nil ==> has(w.Logs, logID) && vs.called && vs.res == nil && ju.res == nil && fb.res == nil && (e0.res || e1.res)
+//@ at ju assert [decodes-the-raw-sth] ju.data == sthRaw
+//@ at fb assert [decodes-the-requested-log-id] fb.b64 == logID
+//@ at vs assert [verifies-the-sth-it-returns-under-the-key-configured-for-that-log] vs.s == w.Logs[logID] && vs.sth == sth
+//@ ensures [returns-the-verified-sth] result1 == nil ==> *result0 == vs.sth
+
+//@ func (*Witness).getLatestSTH
+//@ props C19
+//@ modifies nothing
+//@ frame-trusted writes only its local scan destination; the query function is a database handle
+//@ site Err#1 as re
+//@ site Scan#1 as sc
+//@ requires queryRow != nil
+//@ ensures [row-error-passed-on] re.res != nil ==> result1 == re.res && len(result0) == 0
+//@ ensures [no-stored-sth-is-reported-as-not-found] sc.called && sc.res == sql.ErrNoRows ==> result1 != nil && grpcCode(result1) == 5 && len(result0) == 0
+//@ ensures [other-scan-errors-passed-on] sc.called && sc.res != nil && sc.res != sql.ErrNoRows ==> result1 == sc.res
+//@ ensures [the-stored-bytes] result1 == nil ==> sc.called && sc.res == nil && result0 == after(sc, sth)
+
+//@ func (*Witness).setSTH
+//@ props C19
+//@ modifies nothing
+//@ frame-trusted writes only through the database transaction
+//@ site Exec#1 as ex
+//@ site Commit#1 as cm
+//@ requires tx != nil
+//@ ensures [stored-only-if-written-and-committed] result == nil ==> ex.called && ex.res1 == nil && cm.called && cm.res == nil
+//@ ensures [failed-write-is-not-committed] ex.res1 != nil ==> result != nil && !cm.called
+
+//@ func (*Witness).signSTH
+//@ props C19
+//@ modifies nothing
+//@ site tls.Marshal#1 as tm
+//@ site tls.CreateSignature#1 as cs
+//@ site json.Marshal#1 as jm
+//@ requires w != nil && sth != nil
+//@ ensures [cosigned-bytes-xor-error] result1 == nil ==> tm.res1 == nil && cs.called && cs.res1 == nil && jm.called && jm.res1 == nil && result0 == jm.res0
+//@ ensures [any-failure-gives-no-cosignature] tm.res1 != nil || (cs.called && cs.res1 != nil) || (jm.called && jm.res1 != nil) ==> result1 != nil && len(result0) == 0
+//@ at tm assert [signature-input-is-the-sth-it-accompanies] typeof(tm.val) == ct.SignedTreeHead && as(tm.val, ct.SignedTreeHead) == *sth
+//@ at cs assert [signed-with-the-witness-key-sha256-over-that-input] cs.privKey == w.sk && cs.hashAlgo == tls.SHA256 && cs.data == tm.res0
+//@ at jm assert [cosigned-sth-carries-that-sth-and-exactly-that-signature] typeof(jm.v) == api.CosignedSTH && as(jm.v, api.CosignedSTH).SignedTreeHead == *sth && len(as(jm.v, api.CosignedSTH).WitnessSigs) == 1 && as(jm.v, api.CosignedSTH).WitnessSigs[0] == cs.res0
+
+//@ func (*Witness).Update
+//@ props C19
+//@ arith int
+//@ modifies nothing
+//@ frame-trusted writes only through the database transaction
+//@ site parse#1 as pn
+//@ site BeginTx#1 as bt
+//@ site getLatestSTH#1 as gl
+//@ site status.Code#1 as sc
+//@ site setSTH#1 as st0
+//@ site signSTH#1 as sg0
+//@ site parse#2 as pp
+//@ site bytes.Equal#1 as eq
+//@ site proof.VerifyConsistency#1 as vc
+//@ site setSTH#2 as st1
+//@ site signSTH#2 as sg1
+//@ requires w != nil && w.db != nil
+//@ requires forall k string :: has(w.Logs, k) ==> validKey(w.Logs[k].PubKey)
+//@ ensures [unknown-log-is-refused-with-not-found] !has(w.Logs, logID) ==> result1 != nil && grpcCode(result1) == 5 && !st0.called && !st1.called
+//@ ensures [nothing-is-stored-unless-the-candidate-parsed-and-verified] st0.called || st1.called ==> pn.called && pn.res1 == nil
+//@ ensures [first-sth-is-trusted-only-when-nothing-is-held] st0.called ==> gl.res1 != nil && sc.res == 5
+//@ ensures [a-later-sth-is-stored-only-as-a-proved-extension] st1.called ==> gl.res1 == nil && pp.res1 == nil && pn.res0.TreeSize > pp.res0.TreeSize && vc.called && vc.res == nil
+//@ ensures [stale-sth-refused-with-the-held-one] pp.called && pp.res1 == nil && pn.res0.TreeSize < pp.res0.TreeSize ==> result0 == gl.res0 && result1 != nil && grpcCode(result1) == 9 && !st0.called && !st1.called
+//@ ensures [same-size-different-root-refused-with-the-held-one] pp.called && pp.res1 == nil && pn.res0.TreeSize == pp.res0.TreeSize && !eq.res ==> result0 == gl.res0 && result1 != nil && grpcCode(result1) == 9 && !st0.called && !st1.called
+//@ ensures [same-sth-is-a-no-op-answered-with-the-held-one] pp.called && pp.res1 == nil && pn.res0.TreeSize == pp.res0.TreeSize && eq.res ==> result0 == gl.res0 && result1 == nil && !st0.called && !st1.called
+//@ ensures [inconsistent-extension-refused-with-the-held-one] vc.called && vc.res != nil ==> result0 == gl.res0 && result1 != nil && grpcCode(result1) == 9 && !st0.called && !st1.called
+//@ ensures [unreadable-state-is-an-error-and-stores-nothing] (gl.called && gl.res1 != nil && sc.res != 5) || (pp.called && pp.res1 != nil) ==> result1 != nil && !st0.called && !st1.called
+//@ ensures [success-returns-a-cosignature-over-the-stored-sth] result1 == nil && (st0.called || st1.called) ==> (st0.called ==> st0.res == nil && sg0.called && sg0.res1 == nil && result0 == sg0.res0) && (st1.called ==> st1.res == nil && sg1.called && sg1.res1 == nil && result0 == sg1.res0)
+//@ at pn assert [candidate-checked-against-the-requested-log] pn.sthRaw == nextRaw && pn.logID == logID
+//@ at gl assert [held-sth-of-that-log] gl.logID == logID
+//@ at pp assert [held-sth-re-verified-against-the-same-log] pp.sthRaw == gl.res0 && pp.logID == logID
+//@ at eq assert [compares-the-two-root-hashes] len(eq.a) == 32 && len(eq.b) == 32 && (forall j int :: 0 <= j && j < 32 ==> eq.a[j] == pn.res0.SHA256RootHash[j] && eq.b[j] == pp.res0.SHA256RootHash[j])
+//@ at vc assert [consistency-between-held-and-candidate-sizes-and-roots-with-the-given-proof] vc.size1 == pp.res0.TreeSize && vc.size2 == pn.res0.TreeSize && vc.proof == pf && len(vc.root1) == 32 && len(vc.root2) == 32 && (forall j int :: 0 <= j && j < 32 ==> vc.root1[j] == pp.res0.SHA256RootHash[j] && vc.root2[j] == pn.res0.SHA256RootHash[j])
+//@ at st0 assert [stores-the-verified-candidate-bytes-for-that-log] st0.logID == logID && st0.sth == nextRaw && st0.tx == bt.res0
+//@ at st1 assert [stores-the-verified-candidate-bytes-for-that-log] st1.logID == logID && st1.sth == nextRaw && st1.tx == bt.res0
+//@ at sg0 assert [cosigns-the-parsed-candidate] sg0.sth == pn.res0
+//@ at sg1 assert [cosigns-the-parsed-candidate] sg1.sth == pn.res0
+
+//@ func (*Witness).GetSTH
+//@ props C19
+//@ modifies nothing
+//@ frame-trusted reads the database only
+//@ site getLatestSTH#1 as gl
+//@ site parse#1 as pa
+//@ site signSTH#1 as sg
+//@ requires w != nil && w.db != nil
+//@ requires forall k string :: has(w.Logs, k) ==> validKey(w.Logs[k].PubKey)
+//@ ensures [serves-only-a-held-sth-that-still-verifies-cosigned] result1 == nil ==> gl.res1 == nil && pa.called && pa.res1 == nil && sg.called && sg.res1 == nil && result0 == sg.res0
+//@ at pa assert [re-verifies-what-is-held] pa.sthRaw == gl.res0 && pa.logID == logID
+//@ at sg assert [cosigns-exactly-that-sth] sg.sth == pa.res0
